@@ -8,4 +8,7 @@ cp /repo/go.sum harness/go.sum 2>/dev/null || true
 (cd harness && go build -tags verif -o ../build/harness ./cmd/harness)
 ./build/harness gen -out coq/Generated -repo /repo
 (cd coq && coq_makefile -f _CoqProject -o Makefile >/dev/null && timeout 3400 make -j16)
+# extracted KDF models + OCaml driver (C03/C04)
+mkdir -p build/extract
+(cd build/extract && timeout 600 coqc -Q ../../coq GC ../../coq/Extract/Extract.v && cp ../../ocaml/driver.ml . && ocamlfind ocamlopt -O2 kdf.mli kdf.ml driver.ml -o kdfdriver 2>/dev/null; test -x kdfdriver)
 echo setup-ok
